@@ -256,6 +256,7 @@ type Path struct {
 	pendingPanic *goPanic
 	pendingBug   any
 	schedForks   bool
+	quiescing    bool
 	yieldForks   bool
 	inInit       int
 	nchecks      int
